@@ -319,9 +319,11 @@ def show(t, v):
 
 PRELUDE = r'''int printf(const char *, ...);
 int fflush(void *);
+void exit(int);
 static int cnt;
+static void over(void) { printf("#overflow\n"); exit(61); }
 static void mark(int k) { printf("#%d\n", k); fflush(0); }
-static void out(unsigned long long x) { cnt++; printf("%llx\n", x); }
+static void out(unsigned long long x) { if (++cnt > 4000000) over(); printf("%llx\n", x); }
 static void outf(float x) { union { float f; unsigned u; } v; v.f = x; if ((v.u & 0x7fffffffu) > 0x7f800000u) v.u = 0x7fc00000u; cnt++; printf("f%x\n", v.u); }
 static void outd(double x) { union { double f; unsigned long long u; } v; v.f = x; if ((v.u & 0x7fffffffffffffffull) > 0x7ff0000000000000ull) v.u = 0x7ff8000000000000ull; cnt++; printf("d%llx\n", v.u); }
 static float bf(unsigned u) { union { float f; unsigned u; } v; v.u = u; return v.f; }
@@ -339,7 +341,7 @@ class Case:
         self.inputs, self.lines_per, self.filtered, self.charty = inputs, lines_per, filtered, charty
 
 
-def build_unit(cases, group=24, extra_decl=''):
+def build_unit(cases, group=6, extra_decl=''):
     """C source of a unit holding the cases (numbered 0..n-1) and a main that runs them in order."""
     parts = [PRELUDE, extra_decl]
     drv = []
